@@ -319,8 +319,17 @@ fn decode_step(c: &mut Cur<'_>, k: &mut usize, replies: &mut Vec<(String, crate:
                     4 => Fault::Garbage(B::from(["foo bar", "ACK x", "binary: 2\nabX", "OK "][y % 4])),
                     _ => Fault::EofAfter(y * 16),
                 })
-            } else {
+            } else if faulty {
                 Step::Advance(100)
+            } else {
+                // fault-free scripts: the transport's write side and the events handle
+                let x = c.b();
+                match x % 4 {
+                    0 => Step::Advance(100),
+                    1 => Step::StallWrites(if x & 0x80 != 0 { None } else { Some((x as usize >> 2) % 8) }),
+                    2 => Step::ResumeWrites,
+                    _ => Step::DropEvents,
+                }
             }
         }
     }
@@ -348,7 +357,20 @@ pub fn script_from_bytes(data: &[u8]) -> (crate::sim::Script, bool) {
         steps.push(decode_step(&mut c, &mut k, &mut replies, 0, faulty, &mut fault_used));
     }
     (
-        Script { sched_seed, seg, replies, steps, max_write, picture: None, broken_pipe: ctrl & 0x40 != 0, greeting: None, lazy_events: false, version: None, vectored: false, events_polled_last: false },
+        Script {
+            sched_seed,
+            seg,
+            replies,
+            steps,
+            max_write,
+            picture: None,
+            broken_pipe: ctrl & 0x40 != 0,
+            greeting: None,
+            lazy_events: false,
+            version: if ctrl & 0x20 != 0 { Some("0.20.23".to_string()) } else { None },
+            vectored: ctrl & 0x10 != 0,
+            events_polled_last: false,
+        },
         faulty && fault_used,
     )
 }
